@@ -256,3 +256,142 @@ Proof.
 Qed.
 
 End Monitor.
+
+(* ---------- (1) the model always passes the monitor ---------- *)
+Section Complete.
+Variable now : Z.
+Variable i : input.
+Variable ord : list N -> list N.
+Hypothesis Hord : forall xs, Permutation (ord xs) xs.
+Hypothesis Hms : NoDup (map mpeer (metrics i)).
+Hypothesis Hcur : NoDup (current i).
+
+Let valid := valid_current now i ord.
+Let final := new_candidates now i.
+Let ncur := Z.of_nat (length valid).
+Let cur_h := filter (healthy_p now i) (current i).
+
+Lemma cur_h_in p : In p cur_h <-> In p valid.
+Proof. unfold cur_h, valid. rewrite filter_In, (healthy_p_iff now i Hms), (valid_healthy now i ord Hord). tauto. Qed.
+Lemma cur_h_perm : Permutation cur_h valid.
+Proof. apply NoDup_Permutation; [apply NoDup_filter, Hcur | apply (valid_nodup now i ord Hord Hms) | apply cur_h_in]. Qed.
+Lemma cur_h_len : Z.of_nat (length cur_h) = ncur.
+Proof. unfold ncur. now rewrite (Permutation_length cur_h_perm). Qed.
+
+Lemma reachable_eq : reachable now i = ncur + Z.of_nat (length final).
+Proof. unfold reachable. rewrite Nat2Z.inj_add. f_equal.
+  - change (healthy_count now i (current i) = ncur). apply (holders_current now i ord Hord).
+  - unfold final. now rewrite new_candidates_length. Qed.
+
+Lemma valid_is_cur p : In p valid -> In p (current i).
+Proof. intros H. apply (valid_healthy now i ord Hord) in H. tauto. Qed.
+Lemma valid_is_healthy_p p : In p valid -> healthy_p now i p = true.
+Proof. intros H. apply (healthy_p_iff now i Hms). apply (valid_healthy now i ord Hord) in H. tauto. Qed.
+Lemma final_not_cur p : In p final -> memN p (current i) = false.
+Proof. intros H. apply final_healthy in H. apply memN_false. tauto. Qed.
+Lemma final_is_healthy_p p : In p final -> healthy_p now i p = true.
+Proof. intros H. apply (healthy_p_iff now i Hms). apply final_healthy in H. tauto. Qed.
+
+Lemma added_none l : (forall p, In p l -> In p (current i)) -> filter (fun p => negb (memN p (current i))) l = [].
+Proof. intros H. apply filter_all_false. intros p Hp. apply negb_false_iff, memN_in. auto. Qed.
+
+(* how the monitor's verdict on a returned list is assembled *)
+Lemma spec_okb_ok_intro l :
+  (rmin i <? 0) && (rmax i <? 0) = false -> (0 <? rmin i) && (rmin i <=? rmax i) = true ->
+  let ncur' := Z.of_nat (length cur_h) in
+  let added := filter (fun p => negb (memN p (current i))) l in
+  let addp := filter (fun p => memN p (priority i)) added in
+  let addc := filter (fun p => negb (memN p (priority i))) added in
+  let hl := Z.of_nat (length (filter (healthy_p now i) l)) in
+  (reachable now i <? rmin i) = false -> nodupb l = true -> forallb (sortable_p now i) added = true ->
+  (if ncur' <=? rmax i then subsetb cur_h l else (Z.of_nat (length l) =? rmax i) && subsetb l cur_h) = true ->
+  (rmin i <=? hl) = true -> (hl <=? rmax i) = true ->
+  (list_eqb N.eqb added (addp ++ addc) = true /\
+   monotone (rev i) (vals i addp) = true /\ monotone (rev i) (vals i addc) = true /\
+   no_better_left now i (fun p => memN p (priority i)) addp = true /\
+   no_better_left now i (fun p => negb (memN p (priority i))) addc = true /\
+   match addc with [] => true | _ =>
+     forallb (fun m => if sortable now i m && memN (mpeer m) (priority i) then memN (mpeer m) addp else true) (metrics i) end = true) ->
+  (if ncur' <? rmin i then true else match added with [] => true | _ => false end) = true ->
+  spec_okb now i (ObsOk l) = true.
+Proof. intros H1 H2 ncur' added addp addc hl H3 H4 H5 H6 H7 H8 [H9 [H10 [H11 [H12 [H13 H14]]]]] H15.
+  unfold spec_okb. rewrite H1, H2. cbn [negb]. cbv zeta. fold cur_h. fold ncur'. fold added. fold addp. fold addc. fold hl.
+  rewrite H3. cbn [negb]. rewrite H4, H5, H6, H7, H8, H9, H10, H11, H12, H13, H14, H15. reflexivity. Qed.
+
+Lemma no_added_clauses :
+  let added := @nil N in
+  let addp := filter (fun p => memN p (priority i)) added in
+  let addc := filter (fun p => negb (memN p (priority i))) added in
+  list_eqb N.eqb added (addp ++ addc) = true /\
+  monotone (rev i) (vals i addp) = true /\ monotone (rev i) (vals i addc) = true /\
+  no_better_left now i (fun p => memN p (priority i)) addp = true /\
+  no_better_left now i (fun p => negb (memN p (priority i))) addc = true /\
+  match addc with [] => true | _ =>
+    forallb (fun m => if sortable now i m && memN (mpeer m) (priority i) then memN (mpeer m) addp else true) (metrics i) end = true.
+Proof. cbn [filter app list_eqb]. repeat split; try reflexivity; apply no_better_left_nil. Qed.
+
+Theorem alloc_model_passes_monitor_l : spec_okb now i (obs_of (allocate now i ord)) = true.
+Proof.
+  destruct ((rmin i <? 0) && (rmax i <? 0)) eqn:Neg.
+  { apply andb_true_iff in Neg. destruct Neg as [A B]. apply Z.ltb_lt in A, B.
+    rewrite (alloc_everywhere_l now i ord A B). unfold spec_okb. cbn [obs_of].
+    apply Z.ltb_lt in A, B. now rewrite A, B. }
+  destruct ((0 <? rmin i) && (rmin i <=? rmax i)) eqn:VFb.
+  2:{ unfold spec_okb. rewrite Neg, VFb. reflexivity. }
+  pose proof VFb as VF. apply andb_true_iff in VF. destruct VF as [V1 V2]. apply Z.ltb_lt in V1. apply Z.leb_le in V2.
+  assert (VF : valid_factors (rmin i) (rmax i)) by (split; auto).
+  destruct (alloc_fail_is_error_l now i ord VF) as [Herr Hbad]. fold valid ncur final in Herr.
+  pose proof reachable_eq as Hreach.
+  destruct (allocate now i ord) as [l| |] eqn:EA; cbn [obs_of].
+  - assert (Hnr : (reachable now i <? rmin i) = false).
+    { apply Z.ltb_ge. rewrite Hreach. destruct (Z.lt_ge_cases (ncur + Z.of_nat (length final)) (rmin i)) as [C|C]; auto.
+      apply Herr in C. discriminate. }
+    apply alloc_shape in EA. fold valid ncur final in EA.
+    destruct EA as [[A _]|[_ [[A ->]|[[A [B ->]]|[A [B [C ->]]]]]]]; [lia| | |].
+    + (* more healthy holders than max: the first max of them *)
+      assert (Hsub : forall p, In p (firstn (Z.to_nat (rmax i)) valid) -> In p valid) by (intros p; apply in_firstn).
+      assert (Hlen : length (firstn (Z.to_nat (rmax i)) valid) = Z.to_nat (rmax i)).
+      { rewrite firstn_length. unfold ncur in A. lia. }
+      apply spec_okb_ok_intro; auto; cbv zeta.
+      * apply nodupb_NoDup, NoDup_firstn, (valid_nodup now i ord Hord Hms).
+      * rewrite added_none; auto. intros p Hp. apply valid_is_cur; auto.
+      * rewrite cur_h_len. destruct (Z.leb_spec ncur (rmax i)); [lia|]. apply andb_true_iff. split.
+        -- apply Z.eqb_eq. rewrite Hlen. lia.
+        -- apply subsetb_incl. intros p Hp. apply cur_h_in. auto.
+      * rewrite filter_all_true by (intros p Hp; apply valid_is_healthy_p; auto). rewrite Hlen. apply Z.leb_le. lia.
+      * rewrite filter_all_true by (intros p Hp; apply valid_is_healthy_p; auto). rewrite Hlen. apply Z.leb_le. lia.
+      * rewrite added_none by (intros p Hp; apply valid_is_cur; auto). apply no_added_clauses.
+      * rewrite added_none by (intros p Hp; apply valid_is_cur; auto). match goal with |- (if ?c then _ else _) = _ => destruct c end; reflexivity.
+    + (* enough healthy holders: the current list unchanged *)
+      apply spec_okb_ok_intro; auto; cbv zeta.
+      * now apply nodupb_NoDup.
+      * rewrite added_none; auto.
+      * rewrite cur_h_len. destruct (Z.leb_spec ncur (rmax i)); [|lia]. apply subsetb_incl. intros p Hp.
+        unfold cur_h in Hp. apply filter_In in Hp. tauto.
+      * fold cur_h. rewrite cur_h_len. apply Z.leb_le. lia.
+      * fold cur_h. rewrite cur_h_len. apply Z.leb_le. lia.
+      * rewrite added_none by auto. apply no_added_clauses.
+      * rewrite added_none by auto. match goal with |- (if ?c then _ else _) = _ => destruct c end; reflexivity.
+    + (* below min: healthy holders plus a prefix of the candidate list *)
+      set (k := Z.to_nat (Z.min (rmax i - ncur) (Z.of_nat (length final)))).
+      assert (Hadded : filter (fun p => negb (memN p (current i))) (valid ++ firstn k final) = firstn k final).
+      { rewrite filter_app, added_none by (apply valid_is_cur). cbn [app]. apply filter_all_true.
+        intros p Hp. apply in_firstn in Hp. now rewrite final_not_cur. }
+      assert (Hlen : length (firstn k final) = k) by (rewrite firstn_length; unfold k; lia).
+      assert (Hhl : filter (healthy_p now i) (valid ++ firstn k final) = valid ++ firstn k final).
+      { apply filter_all_true. intros p Hp. apply in_app_or in Hp. destruct Hp as [Hp|Hp].
+        - now apply valid_is_healthy_p. - apply in_firstn in Hp. now apply final_is_healthy_p. }
+      apply spec_okb_ok_intro; auto; cbv zeta; rewrite ?Hadded, ?Hhl, ?app_length, ?Hlen.
+      * apply nodupb_NoDup. apply NoDup_app_intro; [apply (valid_nodup now i ord Hord Hms) | apply NoDup_firstn, final_nodup, Hms|].
+        intros x Hx Hy. apply in_firstn in Hy. apply valid_is_cur in Hx. apply final_not_cur in Hy. apply memN_false in Hy. tauto.
+      * apply forallb_forall. intros p Hp. apply in_firstn in Hp. now apply (sortable_p_iff now i Hms).
+      * rewrite cur_h_len. destruct (Z.leb_spec ncur (rmax i)); [|lia]. apply subsetb_incl. intros p Hp.
+        apply in_or_app. left. now apply cur_h_in.
+      * apply Z.leb_le. unfold ncur in *. unfold k. lia.
+      * apply Z.leb_le. unfold ncur in *. unfold k. lia.
+      * apply (prefix_clauses now i Hms k).
+      * rewrite cur_h_len. destruct (Z.ltb_spec ncur (rmin i)); [reflexivity|lia].
+  - congruence.
+  - unfold spec_okb. rewrite Neg, VFb. cbn [negb]. apply Z.ltb_lt. rewrite Hreach. now apply Herr.
+Qed.
+End Complete.
